@@ -24,6 +24,11 @@ def subst_expr(e, env):
     if k == 'dict':
         return ('dict', tuple((subst_expr(a, env) if a is not None else None, subst_expr(b, env)) for a, b in e[1]))
     if k == 'attr':
+        if e[1][0] == 'var' and e[1][1] in STRUCTS:
+            key = e[1][1] + '.' + e[2]
+            if key in env:
+                return env[key]
+            return e
         return ('attr', subst_expr(e[1], env), e[2])
     if k == 'idx':
         # never replace the array being subscripted by its allocation expression
@@ -36,9 +41,15 @@ def subst_expr(e, env):
         return ('idx', base, subst_expr(e[2], env))
     if k in ('lambda', 'comp'):
         return e
+    if k == 'un' and e[1] == 'neg':
+        a = subst_expr(e[2], env)
+        if a[0] == 'num':
+            return ('num', -a[1])
+        return ('un', 'neg', a)
     return (k,) + tuple(subst_expr(a, env) if isinstance(a, tuple) else a for a in e[1:])
 
 
+STRUCTS = set()     # names of struct-valued locals: `p.f = v` updates env['p.f'], reads of p.f see it
 ARRAYS = set()      # names of array-valued locals of the function under analysis: never replaced by their allocation
 
 
@@ -140,6 +151,8 @@ class Exec:
                 v = subst_expr(s.value, env)
                 for i, t in enumerate(s.target[1]):
                     env[t[1]] = ('idx', v, ('num', i))
+            elif k == 'assign' and s.target[0] == 'attr' and s.target[1][0] == 'var' and s.target[1][1] in STRUCTS:
+                env[s.target[1][1] + '.' + s.target[2]] = subst_expr(s.value, env)
             elif k == 'assign':
                 self.events.append(('store', tuple(self.path), norm_minmax(subst_expr(s.target, env)), norm_minmax(subst_expr(s.value, env)), s))
             elif k == 'decl':
